@@ -81,7 +81,7 @@ func fieldIn(m protoreflect.Message, fd protoreflect.FieldDescriptor) protorefle
 }
 
 func run(c *core.Ctx) {
-	c.Rule = "uniqueness: for 9 types, every ordered pair of (representative field | oneof member | extension) pieces, in JSON (each piece spelled with its JSON name and with its proto name: 4 spellings per pair) and in text format: naming a non-repeated field twice, or two members of one oneof, must be rejected; two different compatible fields must be accepted. Totality: every sequence of <=N tokens over JSON and text token alphabets (braces, brackets, separators, a known singular field name in both spellings, a repeated field name, two oneof member names, an extension name, an unknown name, scalar / string / literal values) and every byte string of <=4 over a 14-byte alphabet is decoded into 3 types without panic. Any: every document naming type_url or value twice (first occurrence empty or not), or mixing the expanded form with a plain field, at top level and nested, and JSON Any objects with a duplicated key, must be rejected. Depth: documents nested to depth limit-1, limit, limit+1 through message fields, Struct/ListValue/Value and Any for RecursionLimit in {1,2,3,5}: deeper than the limit must be rejected"
+	c.Rule = "uniqueness: for 9 types, every ordered pair of (representative field | oneof member | extension) pieces, in JSON (each piece spelled with its JSON name and with its proto name: 4 spellings per pair) and in text format: naming a non-repeated field twice, or two members of one oneof, must be rejected; two different compatible fields must be accepted. Totality: every sequence of <=N tokens over JSON and text token alphabets (braces, brackets, separators, a known singular field name in both spellings, a repeated field name, two oneof member names, an extension name, an unknown name, scalar / string / literal values) and every byte string of <=4 over a 14-byte alphabet is decoded into 3 types without panic. Any: every document naming type_url or value twice (first occurrence empty or not), or mixing the expanded form with a plain field, at top level and nested, and JSON Any objects with a duplicated key, must be rejected. Depth: documents nested to depth limit-1, limit, limit+1 through message fields, Struct/ListValue/Value for RecursionLimit in {1,2,3,5,8}, and through expanded Any (Any inside Any, message / Any alternating; JSON and text; every document also decoded with limit 1000 to show it is well-formed): deeper than the limit must be rejected"
 	c.Exhaustive = true
 	var n atomic.Int64
 	types := []string{"goproto.proto.test.TestAllTypes", "goproto.proto.test3.TestAllTypes", "goproto.proto.testeditions.TestAllTypes", "opaque.goproto.proto.testeditions.TestAllTypes", "goproto.proto.test.TestAllExtensions", "pb3.Proto3Optional", "pb3.Oneofs", "pb2.Nests", "pb2.KnownTypes"}
@@ -304,6 +304,63 @@ func depthFamilies(c *core.Ctx, n *atomic.Int64) {
 			func(d int) string { return nest(`{"k":`, "}", d, "{}") }, nil, false},
 		{"ListValue nesting", univ.MT("google.protobuf.ListValue"),
 			func(d int) string { return nest("[", "]", d, "[]") }, nil, false},
+	}
+	// nesting through google.protobuf.Any in its expanded form. Every Any and
+	// every embedded message is at least one message level, so d counted that
+	// way is a lower bound of what the decoders count: deeper than the limit
+	// must be rejected (one-sided); every document is also decoded with a
+	// generous limit to show that it is well-formed.
+	const anyURL = "type.googleapis.com/google.protobuf.Any"
+	const ktURL = "type.googleapis.com/pb2.KnownTypes"
+	anyT, kt := univ.MT("google.protobuf.Any"), univ.MT("pb2.KnownTypes")
+	oneSided := []fam{
+		{"Any expanded inside Any", anyT,
+			func(d int) string {
+				return strings.Repeat(`{"@type":"`+anyURL+`","value":`, d-1) + "{}" + strings.Repeat("}", d-1)
+			},
+			func(d int) string { return strings.Repeat("["+anyURL+"]{", d-1) + strings.Repeat("}", d-1) }, false},
+		{"message / expanded Any alternating", kt,
+			func(d int) string { // d = 1 + 2*hops
+				h := (d - 1) / 2
+				return "{" + strings.Repeat(`"optAny":{"@type":"`+ktURL+`",`, h) + `"optBool":true` + strings.Repeat("}", h) + "}"
+			},
+			func(d int) string {
+				h := (d - 1) / 2
+				return strings.Repeat("opt_any{["+ktURL+"]{", h) + strings.Repeat("}}", h)
+			}, false},
+	}
+	for _, f := range oneSided {
+		for _, limit := range []int{1, 2, 3, 5, 8} {
+			for _, d := range []int{1, 3, limit + 1, limit + 2, limit + 3, 2*limit + 3, 4*limit + 6, 50} {
+				if f.name != "Any expanded inside Any" {
+					d |= 1 // this family only has odd depths
+				}
+				n.Add(1)
+				for fi, doc := range []string{f.json(d), f.text(d)} {
+					format := []string{"protojson", "prototext"}[fi]
+					dec := func(lim int) (err error, panicked bool) {
+						m := f.mt.New()
+						panicked = c.Guard(func() string { return format + " depth doc=" + doc }, func() {
+							if fi == 0 {
+								err = protojson.UnmarshalOptions{AllowPartial: true, RecursionLimit: lim}.Unmarshal([]byte(doc), m.Interface())
+							} else {
+								err = prototext.UnmarshalOptions{AllowPartial: true, RecursionLimit: lim}.Unmarshal([]byte(doc), m.Interface())
+							}
+						})
+						return
+					}
+					if err, p := dec(1000); p {
+						continue
+					} else if err != nil {
+						c.Violation(fmt.Sprintf("harness: %s depth document of family %q is not accepted even with RecursionLimit 1000", format, f.name), map[string]any{"doc": doc, "err": err.Error()})
+						continue
+					}
+					if err, p := dec(limit); !p && d > limit && err == nil {
+						c.Violation(fmt.Sprintf("%s accepts nesting depth >=%d with RecursionLimit %d (%s)", format, d, limit, f.name), doc)
+					}
+				}
+			}
+		}
 	}
 	for _, f := range fams {
 		for _, limit := range []int{1, 2, 3, 5, 8} {
